@@ -101,10 +101,22 @@ def base_files(ctx):
     return [(n, b) for b, n in seen.items()]
 
 
+def pins_of(p):
+    return [p.htype, p.hdigest.hex(), p.header_len]
+
+
+def mode_lines(mode, pins):
+    """advlate: advanced open in which the caller pins the genuine type, digest and length between reading the lead and
+    reading the header - whatever the library does with pins at that point, the stored checksum still has to match"""
+    if mode == "advlate":
+        return ["mode adv", "pin type=%d digest=%s len=%d late=1" % (pins[0], pins[1].encode().hex(), pins[2])]
+    return ["mode %s" % mode]
+
+
 def check_base(arg):
     name, base, mode = arg
     p = zckref.parse(base)
-    job = ["mode %s" % mode, "base %s" % base.hex(), "file %s" % base.hex(), "subst 0 %d" % p.header_len]
+    job = mode_lines(mode, pins_of(p)) + ["base %s" % base.hex(), "file %s" % base.hex(), "subst 0 %d" % p.header_len]
     extra = []
     for r in RECIPES:
         m = base[:p.digest_loc] + wrong_digest(base, p, r) + base[p.lead_len:]
@@ -181,10 +193,10 @@ def run(ctx):
     bases = base_files(ctx)
     ctx.bounds = {"base_files": len(bases), "substitutions": "all 255 at every header position",
                   "indels": "every position x {delete, insert 00, duplicate}", "wrong_recipes": RECIPES,
-                  "modes": ["zck_init_read", "adv: read_lead+read_header"]}
+                  "modes": ["zck_init_read", "adv: read_lead+read_header", "advlate: genuine pins set between lead and header"]}
     ctx.rule = ("mutant = (base file, header edit); distinct by construction; non-trivial = mutant that passed lead "
                 "parsing and was rejected by the header digest comparison itself")
-    args = [(n, b, "init") for n, b in bases] + [(n, b, "adv") for n, b in bases]
+    args = [(n, b, "init") for n, b in bases] + [(n, b, "adv") for n, b in bases] + [(n, b, "advlate") for n, b in bases]
     results = core.pmap(check_base, args)
     bmap = dict(bases)
     for r in results:
@@ -204,7 +216,7 @@ def run(ctx):
             ctx.violation({"check": "C06", "predicate": "valid-base-does-not-open", "writer": r["name"].split(":")[0],
                            "mode": r["mode"]},
                           "unmutated file %s does not open" % r["name"],
-                          {"kind": "file", "mode": r["mode"], "file": base.hex(), "expect_open": True})
+                          {"kind": "file", "mode": r["mode"], "file": base.hex(), "expect_open": True, "pins": pins_of(p)})
         for o in r["opened"]:
             ctx.outcomes.add(("opened", o[0]))
             if o[0] == "subst":
@@ -214,12 +226,12 @@ def run(ctx):
                        "mode": r["mode"]}
                 ctx.violation(sig, "%s: header byte %d (%s) %02x->%02x still opens" % (r["name"], pos, region(p, pos),
                                                                                         base[pos], v),
-                              {"kind": "file", "mode": r["mode"], "file": bytes(m).hex(), "expect_open": False})
+                              {"kind": "file", "mode": r["mode"], "file": bytes(m).hex(), "expect_open": False, "pins": pins_of(p)})
             else:
                 _, n, mh = o
                 sig = {"check": "C06", "predicate": "mutant-opens", "edit": n.split("@")[0], "mode": r["mode"]}
                 ctx.violation(sig, "%s: mutant %s still opens" % (r["name"], n),
-                              {"kind": "file", "mode": r["mode"], "file": mh, "expect_open": False})
+                              {"kind": "file", "mode": r["mode"], "file": mh, "expect_open": False, "pins": pins_of(p)})
         ctx.outcomes.add(("rejected",))
     # allocation failures: the comparison must not be skipped when an allocation on the way fails
     quick = ctx.tier == "quick"
@@ -252,7 +264,7 @@ def run(ctx):
 
 def replay(case, quiet=True):
     if case["kind"] == "file":
-        cs = core.drv("openenum", "mode %s\nbase 00\nfile %s\n" % (case["mode"], case["file"]))
+        cs = core.drv("openenum", "\n".join(mode_lines(case["mode"], case.get("pins"))) + "\nbase 00\nfile %s\n" % case["file"])
         c = cs[0]
         if not c.ok:
             return {"violated": True, "detail": c.status()}
